@@ -249,6 +249,11 @@ pub fn shrink_net(net: &NetCfg) -> Vec<NetCfg> {
             push(&mut out, n);
         }
     }
+    if !net.set_activations.is_empty() {
+        let mut n = net.clone();
+        n.set_activations.clear();
+        push(&mut out, n);
+    }
     if !net.loopbacks.is_empty() {
         let mut n = net.clone();
         n.loopbacks.clear();
@@ -262,7 +267,7 @@ pub fn shrink_net(net: &NetCfg) -> Vec<NetCfg> {
         }
     }
     // remove a hidden layer (indices in connects/loopbacks would dangle, so only when none)
-    if net.connects.is_empty() && net.loopbacks.is_empty() && net.layers.len() > 1 {
+    if net.connects.is_empty() && net.loopbacks.is_empty() && net.set_activations.is_empty() && net.layers.len() > 1 {
         for i in 0..net.layers.len() - 1 {
             let mut n = net.clone();
             n.layers.remove(i);
